@@ -7,5 +7,7 @@ MCOuts == {"ok", "e1", "panic"}
 Inv == InFlightLeMax /\ AdmitOnlyWithSlot /\ NoLostCapacity /\ ListenersConsistent
        /\ (Waiting # {} => Free <= 0)                      \* a free slot never coexists with a queue
 \* behaviours for direction 1 (simulation mode, -workers 1): one line per state
+\* transition tour: every transition of the (small) model, printed with the level of its source state
+TourDump == PrintT(<<"EDGE", TLCGet("level"), ToJson([f |-> view, t |-> view', cfg |-> cfg, ev |-> ev'])>>)
 GenPrint == PrintT(<<"GEN", TLCGet("level"), ToJson([cfg |-> cfg, ev |-> ev])>>)
 =============================================================================
